@@ -366,6 +366,91 @@ static void s_list(struct aws_byte_cursor q, const struct aws_uri *uri) {
     aws_array_list_clean_up(&list);
 }
 
+/* q_lists <d|s><cap> <nseed> <arg>...: the list forms called one after the other on ONE output list (dynamic with
+ * initial capacity cap, or static with cap slots) that starts with nseed default entries; arg = query hex | null |
+ * u<uri hex> (through aws_uri_query_string_params).  Expected: previous contents ++ pairs of each query, in order. */
+#define MAXARGS 8
+static void s_lists(char **t, int n) {
+    static const char *dk[] = {"dk0", "dk1", "dk2", "dk3", "dk4", "dk5", "dk6", "dk7", "dk8", "dk9"};
+    static const char *dv[] = {"dv0", "dv1", "dv2", "dv3", "dv4", "dv5", "dv6", "dv7", "dv8", "dv9"};
+    if (n < 4 || n > 3 + MAXARGS || (t[1][0] != 'd' && t[1][0] != 's')) {
+        printf("bad-op\n");
+        return;
+    }
+    size_t cap = hc_parse_size(t[1] + 1), nseed = hc_parse_size(t[2]);
+    int is_static = t[1][0] == 's';
+    if (nseed > 9 || cap == 0 || (is_static && cap < nseed)) {
+        printf("bad-op\n");
+        return;
+    }
+    long base = hc_live_blocks();
+    struct aws_array_list list;
+    struct aws_uri_param *slots = NULL;
+    if (is_static) {
+        slots = malloc(cap * sizeof(struct aws_uri_param)); /* exact size: ASan sees a write behind the last slot */
+        aws_array_list_init_static(&list, slots, cap, sizeof(struct aws_uri_param));
+    } else {
+        HC_CHECK(aws_array_list_init_dynamic(&list, hc_allocator(), cap, sizeof(struct aws_uri_param)) == AWS_OP_SUCCESS);
+    }
+    for (size_t i = 0; i < nseed; ++i) {
+        struct aws_uri_param p = {.key = aws_byte_cursor_from_c_str(dk[i]), .value = aws_byte_cursor_from_c_str(dv[i])};
+        HC_CHECK(aws_array_list_push_back(&list, &p) == AWS_OP_SUCCESS);
+    }
+    uint8_t *in[MAXARGS];
+    struct aws_uri uris[MAXARGS];
+    bool have_uri[MAXARGS];
+    int nargs = n - 3;
+    printf("P lists rcs=");
+    for (int a = 0; a < nargs; ++a) {
+        const char *arg = t[3 + a];
+        in[a] = NULL;
+        have_uri[a] = false;
+        int rc;
+        if (arg[0] == 'u') {
+            size_t len;
+            in[a] = hc_hex_decode(arg + 1, &len);
+            struct aws_byte_cursor cur = aws_byte_cursor_from_array(in[a], len);
+            if (aws_uri_init_parse(&uris[a], hc_allocator(), &cur)) {
+                printf("%sPARSE", a ? "," : "");
+                continue;
+            }
+            have_uri[a] = true;
+            rc = aws_uri_query_string_params(&uris[a], &list);
+        } else {
+            struct aws_byte_cursor q;
+            if (!strcmp(arg, "null")) {
+                AWS_ZERO_STRUCT(q);
+            } else {
+                size_t len;
+                in[a] = hc_hex_decode(arg, &len);
+                q = aws_byte_cursor_from_array(in[a], len);
+            }
+            rc = aws_query_string_params(q, &list);
+        }
+        printf("%s%s", a ? "," : "", hc_err(rc));
+    }
+    size_t len = aws_array_list_length(&list);
+    printf(" n=%zu\n", len);
+    for (size_t i = 0; i < len; ++i) {
+        struct aws_uri_param p;
+        HC_CHECK(aws_array_list_get_at(&list, &p, i) == AWS_OP_SUCCESS);
+        printf("P litem key=");
+        hc_put_hex(p.key.ptr, p.key.len);
+        printf(" value=");
+        hc_put_hex(p.value.ptr, p.value.len);
+        printf("\n");
+    }
+    aws_array_list_clean_up(&list);
+    free(slots);
+    for (int a = 0; a < nargs; ++a) {
+        if (have_uri[a]) {
+            aws_uri_clean_up(&uris[a]);
+        }
+        free(in[a]);
+    }
+    s_leak_check(base);
+}
+
 static void s_query_op(const char *arg, int list, int via_uri) {
     long base = hc_live_blocks();
     if (!via_uri) {
@@ -421,6 +506,8 @@ int main(void) {
             s_coder(t, n, 1);
         } else if (!strcmp(t[0], "dec")) {
             s_coder(t, n, 2);
+        } else if (!strcmp(t[0], "q_lists")) {
+            s_lists(t, n);
         } else if (!strcmp(t[0], "q_iter") && n == 2) {
             s_query_op(t[1], 0, 0);
         } else if (!strcmp(t[0], "q_list") && n == 2) {
